@@ -95,6 +95,7 @@ type Engine struct {
 	seed           int64
 	verbose        bool
 	natTypes       map[string]types.Type
+	traceOn        bool
 	timeType       types.Type
 }
 
@@ -615,6 +616,25 @@ func (e *Engine) RunHarness(h *Harness) *HarnessResult {
 	timeout := time.Duration(h.TimeoutS) * time.Second
 	if timeout == 0 {
 		timeout = 10 * time.Second
+	}
+	if e.verbose {
+		stop := make(chan struct{})
+		defer close(stop)
+		go func() {
+			tk := time.NewTicker(15 * time.Second)
+			defer tk.Stop()
+			for {
+				select {
+				case <-stop:
+					return
+				case <-tk.C:
+					qmu.Lock()
+					ql := len(queue)
+					qmu.Unlock()
+					fmt.Fprintf(os.Stderr, "  [%s] %.0fs paths=%d completed=%d queue=%d steps=%d cex=%d\n", h.Name, time.Since(t0).Seconds(), atomic.LoadInt64(&res.Paths), res.Completed, ql, atomic.LoadInt64(&res.Steps), len(res.CEX))
+				}
+			}
+		}()
 	}
 	var wg sync.WaitGroup
 	nw := e.workers
